@@ -530,6 +530,13 @@ func luaCellObligations(base string, r emitRun) []emitObl {
 			if r.entry.Dir == "sub" {
 				note("returns", luaReturnsIssues(text))
 			}
+			if r.cell.Kind == "match" {
+				for i := 0; i < 4; i++ {
+					if k := fmt.Sprintf("== <in.mp%d.Key>", i); !strings.Contains(text, k) {
+						note("key-compared", []string{fmt.Sprintf("key %d of the table is never the right-hand side of a comparison with the key variable (`%s` does not occur): its alternative is not selected by its own key", i, k)})
+					}
+				}
+			}
 		}
 	}
 	desc := map[string]string{
@@ -538,6 +545,7 @@ func luaCellObligations(base string, r emitRun) []emitObl {
 		"scope":          "every variable a step uses is a parameter or a local of the emitted function",
 		"width":          "the displayed width is the wire size of the declared type; prefixes are fetched with the size and accessor of the configured prefix type and byte order",
 		"returns":        "the emitted sub dissector returns the offset it reached",
+		"key-compared":   "every key of the match table is compared with the key variable (`k == key`)",
 		"inline-defined": "the `local function` of an inline packet's dissector precedes, in the emitted text, every call of it",
 	}
 	kinds := []string{"advance", "nested", "scope", "width"}
@@ -546,6 +554,9 @@ func luaCellObligations(base string, r emitRun) []emitObl {
 	}
 	if r.cell.Kind == "inline" && r.entry.Dir == "dec" {
 		kinds = append(kinds, "inline-defined")
+	}
+	if r.cell.Kind == "match" {
+		kinds = append(kinds, "key-compared")
 	}
 	var out []emitObl
 	if feasible == 0 {
@@ -663,6 +674,8 @@ func luaPrograms() []luaProgram {
 		{"empty-packet-as-object", "packet Marker { }\npacket Holder { u8 a, Marker m, u16 b, }\nroot packet R { Marker first, Holder h, repeat Marker marks, u32 tail, }\n"},
 		{"same-inline-name-twice", "packet Quote { repeat Entry { u32 Price, u16 Qty, }, }\npacket Trade { Entry { char[8] Account, u8 Side, }, }\nroot packet R { Quote q, Trade t, }\n"},
 		{"object-used-twice", "packet Leaf { u8 v, }\npacket Left { Leaf l, }\npacket Right { Leaf l, repeat Leaf more, }\nroot packet R { Left a, Right b, Leaf c, }\n"},
+		{"inline-refers-to-later-packet", "packet Order { u32 id, Leg { u16 qty, Price px, }, repeat Fill { Price at, u8 n, }, }\npacket Price { u32 p, }\nroot packet R { Order o, }\n"},
+		{"match-in-inline-to-later-packet", "packet Env { u8 kind, body { u16 k, match k as alt { 1 : X, 2 : Y, }, }, }\npacket X { u8 x, }\npacket Y { u8 y, }\nroot packet R { Env e, u32 tail, }\n"},
 		{"chain-of-three", "packet C { u8 c, }\npacket B { C c, }\npacket A { B b, }\nroot packet R { A a, }\n"},
 		{"chain-of-three-reversed", "packet A { B b, }\npacket B { C c, }\npacket C { u8 c, }\nroot packet R { A a, }\n"},
 	}
